@@ -965,7 +965,7 @@ func init() {
 			}
 			return map[string]any{"multiset_size": 4, "records": 17, "permutations": "all", "flatten_history_len": 2, "resumed_sessions": resume}
 		},
-		Assumptions: []string{"refcar index codec is correct", "a record repeated exactly (same multihash, same offset) carries no information the statement requires to be kept twice",
+		Assumptions: []string{"a first session refused for its option set, and an empty session whose finished CARv2 carries no index, are outside the statement (outcomes beyond-statement:resume-first-session-refused, :finished-carv2-of-empty-session-without-index)", "refcar index codec is correct", "a record repeated exactly (same multihash, same offset) carries no information the statement requires to be kept twice",
 			"a file reopened for writing with the roots and options it was written with is a writing session of the statement; the index its Index() accessor hands out just before Finalize is the session index that Finalize flattens",
 			"refcar's section scan of the finished payload is correct (used to decide whether two indexed sections share a digest and as the reference index of a resumed session)"},
 	})
